@@ -156,6 +156,8 @@ async fn run(cases: &str, out: &str, workdir: &str) {
         writeln!(w, "case {cid}: STORE models=[{}] events=[{}]", ms.join(" "), evs.join(" ")).unwrap();
         engine.close();
         quiesce().await;
+        crate::util::emit_problems(&mut w, &cid);
+        crate::util::force_idle();
     }
     w.flush().unwrap();
 }
